@@ -301,17 +301,67 @@ func c06R1(e *Engine) {
 	// the climbing loop compares with the precedence of the peek token
 	if pe != nil {
 		ok := false
+		why := "no comparison of the caller's precedence with the next operator's precedence decides the loop"
+		loops := naturalLoops(pe)
 		instrs(pe, func(in ssa.Instruction) {
 			b, isB := in.(*ssa.BinOp)
-			if !isB || b.Op != token.LSS {
+			if !isB || (b.Op != token.LSS && b.Op != token.GTR && b.Op != token.LEQ && b.Op != token.GEQ) {
 				return
 			}
-			if _, isP := b.X.(*ssa.Parameter); isP {
-				if c, isC := b.Y.(*ssa.Call); isC && c.Call.StaticCallee() != nil && strings.Contains(strings.ToLower(c.Call.StaticCallee().Name()), "peekprecedence") {
-					ok = true
+			isPeekPrec := func(v ssa.Value) bool {
+				os, ks := e.originsAndKeys(v)
+				table, peek := false, false
+				for _, o := range os {
+					if o == "mapval-of global:precedences" {
+						table = true
+					}
+				}
+				for _, k := range ks {
+					if k == "path:peekToken.Type" {
+						peek = true
+					}
+				}
+				return table && peek
+			}
+			var paramLeft bool
+			switch {
+			case isParamOf(b.X, pe) && isPeekPrec(b.Y):
+				paramLeft = true
+			case isParamOf(b.Y, pe) && isPeekPrec(b.X):
+				paramLeft = false
+			default:
+				return
+			}
+			// which truth value of the comparison keeps the loop going
+			for _, r := range refsOf(b) {
+				ifi, isIf := r.(*ssa.If)
+				if !isIf {
+					continue
+				}
+				for _, body := range loops {
+					if !body[ifi.Block()] {
+						continue
+					}
+					in0, in1 := body[ifi.Block().Succs[0]], body[ifi.Block().Succs[1]]
+					if in0 == in1 {
+						continue
+					}
+					continuesOnTrue := in0
+					// normalise to: continue iff param < peek
+					op := b.Op
+					if !paramLeft {
+						op = flipOp(op)
+					}
+					good := (op == token.LSS && continuesOnTrue) || (op == token.GEQ && !continuesOnTrue)
+					if good {
+						ok = true
+					} else {
+						why = fmt.Sprintf("the loop continues on %v of `precedence %s next`, i.e. not exactly while the caller's precedence is strictly lower", continuesOnTrue, op)
+					}
 				}
 			}
 		})
+		_ = why
 		e.check(ok, "R1", "lang.Parser.parseExpression:climb", e.pos(pe.Pos()), "the loop continues while the caller's precedence is strictly lower than the next operator's")
 	}
 	// registered infix tokens == precedence keys
@@ -531,11 +581,30 @@ func c06R3(e *Engine) {
 	for _, fn := range e.funcs("lang") {
 		type pair struct{ lo, hi *ssa.Call }
 		var calls []*ssa.Call
+		// comparator calls: direct, or through a function value chosen among comparators (cmp := evalNumberInfix… per type)
+		chosen := map[*ssa.Call][]*ssa.Function{}
 		instrs(fn, func(in ssa.Instruction) {
-			if c, ok := in.(*ssa.Call); ok && c.Call.StaticCallee() != nil {
-				if _, isCmp := cfs[c.Call.StaticCallee()]; isCmp {
+			c, ok := in.(*ssa.Call)
+			if !ok || c.Call.IsInvoke() || isBuiltin(c) {
+				return
+			}
+			if g := c.Call.StaticCallee(); g != nil {
+				if _, isCmp := cfs[g]; isCmp {
 					calls = append(calls, c)
+					chosen[c] = []*ssa.Function{g}
 				}
+				return
+			}
+			fs := e.closuresOf(c.Call.Value, nil, 0)
+			all := len(fs) > 0
+			for _, g := range fs {
+				if _, isCmp := cfs[g]; !isCmp {
+					all = false
+				}
+			}
+			if all {
+				calls = append(calls, c)
+				chosen[c] = fs
 			}
 		})
 		if len(calls) < 2 || len(fn.Params) != 3 {
@@ -584,8 +653,13 @@ func c06R3(e *Engine) {
 			if len(cs) != 2 {
 				continue
 			}
-			n++
-			cmpName := strings.TrimPrefix(e.fname(cs[0].Call.StaticCallee()), "lang.")
+			n += len(chosen[cs[0]])
+			var names []string
+			for _, g := range chosen[cs[0]] {
+				names = append(names, strings.TrimPrefix(e.fname(g), "lang."))
+			}
+			sort.Strings(names)
+			cmpName := strings.Join(names, "|")
 			construct := e.fname(fn) + ":range[" + cmpName + "]"
 			op1, _ := constString(cs[0].Call.Args[0])
 			op2, _ := constString(cs[1].Call.Args[0])
@@ -864,12 +938,12 @@ func c06R6(e *Engine) {
 	e.check(len(mp) == 0, "R6", "interp.Language.Match:input-untouched", e.pos(m.Pos()), "no store, delete or mutating call reaches a map of the MatchInput (mutated params: %v)", mp)
 	// the environment works on a private copy of the item (fresh map) – shared with C10.R5
 	fresh := false
-	instrs(m, func(in ssa.Instruction) {
+	e.walkLocal("interp", m, 2, func(in ssa.Instruction, ctx []callCtx) {
 		c, ok := in.(*ssa.Call)
 		if !ok || c.Call.StaticCallee() == nil || c.Call.StaticCallee().Name() != "AddAttributes" {
 			return
 		}
-		for _, o := range e.origins(c.Call.Args[1]) {
+		for _, o := range e.originsCtx(c.Call.Args[1], ctx) {
 			if o == "fresh-map" {
 				fresh = true
 			}
@@ -879,98 +953,144 @@ func c06R6(e *Engine) {
 }
 
 func c06R7(e *Engine) {
-	// the handler of comparisons with an undefined operand: a function of (operator, left, right) whose only calls are
-	// the undefined test and whose returns are the TRUE/FALSE singletons
+	// the handler of comparisons with an undefined operand: a function of (operator, left, right) that tests both operands
+	// with the undefined test and distinguishes "=" and "<>". It is evaluated as a decision table over
+	// (operator, left undefined?, right undefined?): with an undefined operand "=" is false, "<>" true, the rest false.
 	und := e.fn("lang", "isUndefined")
 	tr, fl := e.global("lang", "TRUE"), e.global("lang", "FALSE")
 	if !e.anchor("R7", "lang.isUndefined/TRUE/FALSE", und == nil || tr == nil || fl == nil) {
 		return
 	}
+	// bool → TRUE/FALSE converters
+	isBoolConv := func(g *ssa.Function) bool {
+		if g == nil || g.Blocks == nil || len(g.Params) != 1 || !isBoolType(g.Params[0].Type()) {
+			return false
+		}
+		for _, in := range []bool{true, false} {
+			ret, _, _, ok := interpBoolP(g, func(v ssa.Value) (bool, bool) {
+				if v == ssa.Value(g.Params[0]) {
+					return in, true
+				}
+				return false, false
+			})
+			if !ok {
+				return false
+			}
+			u, isU := strip(retVals(ret)[0]).(*ssa.UnOp)
+			if !isU || (in && u.X != ssa.Value(tr)) || (!in && u.X != ssa.Value(fl)) {
+				return false
+			}
+		}
+		return true
+	}
 	found := false
 	for _, fn := range e.funcs("lang") {
-		if len(fn.Params) != 3 || fn.Parent() != nil {
+		if len(fn.Params) != 3 || fn.Parent() != nil || !isStringType(fn.Params[0].Type()) {
 			continue
 		}
-		onlyUnd, usesUnd := true, false
+		onlyKnown, usesL, usesR := true, false, false
 		instrs(fn, func(in ssa.Instruction) {
-			if c, ok := in.(*ssa.Call); ok && !isBuiltin(c) {
-				if c.Call.StaticCallee() == und {
-					usesUnd = true
-				} else {
-					onlyUnd = false
+			c, ok := in.(*ssa.Call)
+			if !ok || isBuiltin(c) {
+				return
+			}
+			switch {
+			case c.Call.StaticCallee() == und:
+				if strip(c.Call.Args[0]) == ssa.Value(fn.Params[1]) {
+					usesL = true
+				}
+				if strip(c.Call.Args[0]) == ssa.Value(fn.Params[2]) {
+					usesR = true
+				}
+			case isBoolConv(c.Call.StaticCallee()):
+			default:
+				onlyKnown = false
+			}
+		})
+		labels := map[string]bool{}
+		instrs(fn, func(in ssa.Instruction) {
+			if b, ok := in.(*ssa.BinOp); ok && b.Op == token.EQL && b.X == ssa.Value(fn.Params[0]) {
+				if s, isK := constString(b.Y); isK {
+					labels[s] = true
 				}
 			}
 		})
-		if !onlyUnd || !usesUnd {
-			continue
-		}
-		labels := map[string]*ssa.BinOp{}
-		instrs(fn, func(in ssa.Instruction) {
-			if b, ok := in.(*ssa.BinOp); ok && b.Op == token.EQL {
-				if _, isP := b.X.(*ssa.Parameter); isP {
-					if s, isK := constString(b.Y); isK {
-						labels[s] = b
-					}
-				}
-			}
-		})
-		if labels["="] == nil || labels["<>"] == nil {
+		if !onlyKnown || !usesL || !usesR || !labels["="] || !labels["<>"] {
 			continue
 		}
 		found = true
-		for label, want := range map[string]*ssa.Global{"=": fl, "<>": tr} {
+		for _, op := range []string{"=", "<>", "<"} {
+			label := op
+			if op == "<" {
+				label = "other"
+			}
 			construct := e.fname(fn) + ":undefined[" + label + "]"
-			ok, n := true, 0
-			for _, r := range returnsOf(fn) {
-				onLabel := false
-				for _, cd := range condsAt(r.Block()) {
-					cd = normCond(cd)
-					if cd.V == ssa.Value(labels[label]) && cd.Val {
-						onLabel = true
-					}
-				}
-				if !onLabel {
-					continue
-				}
-				// undefined case: every edge into the return's block is the true edge of an undefined test
-				undefCase := len(r.Block().Preds) > 0
-				for _, p := range r.Block().Preds {
-					ifi, isIf := p.Instrs[len(p.Instrs)-1].(*ssa.If)
-					if !isIf || p.Succs[0] != r.Block() {
-						undefCase = false
+			want := op == "<>"
+			bad := ""
+			for _, lu := range []bool{true, false} {
+				for _, ru := range []bool{true, false} {
+					if !lu && !ru {
 						continue
 					}
-					if c, isC := ifi.Cond.(*ssa.Call); !isC || c.Call.StaticCallee() != und {
-						undefCase = false
+					ret, evalAt, edgeOf, ok := interpBoolP(fn, func(v ssa.Value) (bool, bool) {
+						switch x := v.(type) {
+						case *ssa.BinOp:
+							if x.Op == token.EQL && x.X == ssa.Value(fn.Params[0]) {
+								if s, isK := constString(x.Y); isK {
+									return s == op, true
+								}
+							}
+						case *ssa.Call:
+							if x.Call.StaticCallee() == und {
+								if strip(x.Call.Args[0]) == ssa.Value(fn.Params[1]) {
+									return lu, true
+								}
+								if strip(x.Call.Args[0]) == ssa.Value(fn.Params[2]) {
+									return ru, true
+								}
+							}
+						}
+						return false, false
+					})
+					if !ok {
+						bad = "could not be evaluated"
+						continue
+					}
+					// the object returned: TRUE / FALSE, or a converted boolean
+					v := retVals(ret)[0]
+					if ph, isPhi := v.(*ssa.Phi); isPhi {
+						v = edgeOf(ph)
+					}
+					got, known := false, false
+					if v != nil {
+						switch x := strip(v).(type) {
+						case *ssa.UnOp:
+							if x.X == ssa.Value(tr) {
+								got, known = true, true
+							}
+							if x.X == ssa.Value(fl) {
+								got, known = false, true
+							}
+						case *ssa.Call:
+							if isBoolConv(x.Call.StaticCallee()) {
+								got, known = evalAt(x.Call.Args[0])
+							}
+						}
+					}
+					switch {
+					case !known:
+						bad = "returns something other than TRUE / FALSE"
+					case got != want:
+						bad = fmt.Sprintf("yields %v for left undefined=%v, right undefined=%v", got, lu, ru)
 					}
 				}
-				if !undefCase {
-					continue
-				}
-				n++
-				if u, isU := strip(retVals(r)[0]).(*ssa.UnOp); !isU || u.X != ssa.Value(want) {
-					ok = false
-				}
 			}
-			e.check(ok && n > 0, "R7", construct, e.pos(fn.Pos()), "with an undefined operand %q yields %s (%d return(s) on the undefined edges)", label, want.Name(), n)
-		}
-		// every other comparator is false with an undefined operand: the fall-through return is FALSE
-		okDefault := false
-		for _, r := range returnsOf(fn) {
-			governed := false
-			for _, cd := range condsAt(r.Block()) {
-				cd = normCond(cd)
-				if cd.Val {
-					governed = true
-				}
-			}
-			if !governed {
-				if u, isU := strip(retVals(r)[0]).(*ssa.UnOp); isU && u.X == ssa.Value(fl) {
-					okDefault = true
-				}
+			if bad == "" {
+				e.pass("R7", construct, e.pos(fn.Pos()), "with an undefined operand %q yields %v in all three cases", op, want)
+			} else {
+				e.fail("R7", construct, e.pos(fn.Pos()), "with an undefined operand the comparator %q %s (it must be %v: a missing attribute equals nothing, differs from everything and is not ordered)", op, bad, want)
 			}
 		}
-		e.check(okDefault, "R7", e.fname(fn)+":undefined[other]", e.pos(fn.Pos()), "ordering comparators with an undefined operand are false")
 	}
 	if !found {
 		e.fail("R7", "undefined-operand-handler", "-", "no function handles comparisons with an undefined operand ('=' false, '<>' true)")
@@ -1119,4 +1239,9 @@ func c06R9(e *Engine) {
 	if n < 2 {
 		e.fail("R9", "count:R9", "-", "only %d IN/BETWEEN evaluators found", n)
 	}
+}
+
+func isParamOf(v ssa.Value, fn *ssa.Function) bool {
+	p, ok := strip(v).(*ssa.Parameter)
+	return ok && p.Parent() == fn
 }
